@@ -175,6 +175,9 @@ type StepB struct {
 	Via    string  `json:"via,omitempty"`    // render: invoke | csv | texttable
 	Shared int     `json:"shared,omitempty"` // rowerr, reg: > 0 = the error value is the sentinel of that number (the same value every time) instead of a fresh one
 	N      int     `json:"n,omitempty"`      // reg: the registration is made N times (several failing callbacks in one slot: one round, several errors)
+	Mode   int     `json:"mode,omitempty"`   // rowerr: 0 AddError(e); 1 AddError(nil); 2 AddErrorList of Cnt errors with nil entries in between; 3 AddErrorList(nil or empty)
+	Cnt    int     `json:"cnt,omitempty"`    // rowerr mode 2: number of non-nil errors in the list (1..3)
+	Nest   bool    `json:"nest,omitempty"`   // reg (owner table, add time, target row or cell): the callback also adds one row to the same table (at most twice, never from inside itself) before it reports
 }
 
 type CaseB struct {
@@ -265,6 +268,29 @@ func (f *failCB) UpdateProperties(po tabular.PropertyOwner) error {
 	}
 	f.w.raised = append(f.w.raised, raised{e, f.w.home})
 	return e
+}
+
+// nestCB is a table-owned add-time callback that, besides failing like failCB, adds one more row to the same table
+// while the outer row is being attached (a totals row after a group row, say).  Whatever the other callbacks raise for
+// the inner row is raised on the table (the inner row belongs to it at once); the outer row's errors stay due.
+type nestCB struct {
+	failCB
+	t     tabular.Table
+	depth int
+	fired int
+}
+
+func (f *nestCB) UpdateProperties(po tabular.PropertyOwner) error {
+	if f.depth == 0 && f.fired < 2 {
+		f.depth++
+		f.fired++
+		home := f.w.home
+		f.w.home = nil
+		f.t.AddRowItems("nested", f.fired)
+		f.w.home = home
+		f.depth--
+	}
+	return f.failCB.UpdateProperties(po)
 }
 
 // Errors the harness did not create are the library's own (on the unchanged tree: the misuse error of adding a
@@ -427,8 +453,34 @@ func checkB(c CaseB) *ev.Violation {
 			if r.Attached {
 				home = nil
 			}
-			w.raised = append(w.raised, raised{e, home})
-			r.Real.AddError(e)
+			switch st.Mode % 4 {
+			case 1:
+				r.Real.AddError(nil) // adds nothing, raises nothing
+			case 2:
+				// a list with nil entries around and between the errors: only the errors are added, in order
+				list := []error{nil}
+				w.raised = append(w.raised, raised{e, home})
+				list = append(list, e)
+				for x := 1; x < st.Cnt && x < 3; x++ {
+					w.seq++
+					e2 := &hErr{src: fmt.Sprintf("row%p", r), seq: w.seq}
+					w.raised = append(w.raised, raised{e2, home})
+					list = append(list, nil, e2)
+				}
+				if st.Cnt%2 == 0 {
+					list = append(list, nil)
+				}
+				r.Real.AddErrorList(list)
+			case 3:
+				if st.Cnt%2 == 0 {
+					r.Real.AddErrorList(nil)
+				} else {
+					r.Real.AddErrorList([]error{})
+				}
+			default:
+				w.raised = append(w.raised, raised{e, home})
+				r.Real.AddError(e)
+			}
 		case "reg":
 			var owner tabular.PropertyOwner
 			switch st.Owner {
@@ -455,7 +507,11 @@ func checkB(c CaseB) *ev.Violation {
 			}
 			for k := 0; k < 1 || k < st.N; k++ {
 				nreg++
-				t.RegisterPropertyCallback(owner, whens[st.When%4], targets[st.Target%3], &failCB{reg: nreg, w: w, shared: st.Shared})
+				var cb tabular.PropertyCallback = &failCB{reg: nreg, w: w, shared: st.Shared}
+				if st.Nest && st.Owner == "table" && st.When%4 == 0 && st.Target%3 != 0 {
+					cb = &nestCB{failCB: failCB{reg: nreg, w: w, shared: st.Shared}, t: t}
+				}
+				t.RegisterPropertyCallback(owner, whens[st.When%4], targets[st.Target%3], cb)
 			}
 		case "update":
 			// refreshing a cell's text from its item is no occasion for any callback: nothing is raised
@@ -563,9 +619,15 @@ func Classify(c Case) (bool, interface{}, []string) {
 					} else {
 						add("B-error-on-attached-row")
 					}
+					if st.Mode%4 != 0 {
+						add(fmt.Sprintf("B-rowerr-mode%d", st.Mode%4))
+					}
 				}
 			case "reg":
 				add(fmt.Sprintf("B-reg-%s-w%d-t%d", st.Owner, st.When%4, st.Target%3))
+				if st.Nest && st.Owner == "table" && st.When%4 == 0 && st.Target%3 != 0 {
+					add("B-callback-adds-a-row")
+				}
 				nt = true
 			case "render":
 				add("B-render-" + st.Via)
